@@ -4,10 +4,11 @@ set -u
 R=$1; shift
 D=/var/tmp/verif-refac-$$; rm -rf $D; mkdir -p $D; rsync -a --exclude target --exclude .git /repo/ $D/
 (cd $D && patch -p1 -s < $R/patch.diff) || { echo "PATCH FAILED $R"; rm -rf $D; exit 9; }
+export VERIF_DEV_KANI_CACHE=/var/tmp/verif-devcache-$$   # harness results shared between the properties of THIS copy
 for P in "$@"; do
   OUT=$(VERIF_REPO=$D /verif/check $P 2>&1 | grep -v "^WARNING conda"); RC=$?
   LINE=$(echo "$OUT" | grep -E "^$P:" | tail -1)
   if echo "$OUT" | grep -q "^VIOLATION"; then echo "FALSE-ALARM $(basename $R) $P :: $LINE"; echo "$OUT" | grep -E "violated:|undecided:" | head -8
   else echo "ok $(basename $R) $P :: $LINE"; echo "$OUT" | grep -E "undecided:" | head -4; fi
 done
-rm -rf $D
+rm -rf $D $VERIF_DEV_KANI_CACHE
